@@ -17,7 +17,11 @@ type vhSource struct {
 	eofData bool   // the call that reaches the end returns (n, io.EOF) instead of (n, nil)
 	failAt  int    // index of the Read call that fails with errVhSource (-1: never)
 	calls   int
+	shortCalls int
 }
+
+var vhShortSizes = []int{1, 2, 3, 5, 7, 8, 9, 13, 16}
+var vhShortNames = []string{"short0", "short1", "short2", "short3"}
 
 func (s *vhSource) Read(p []byte) (int, error) {
 	k := s.calls
@@ -34,9 +38,28 @@ func (s *vhSource) Read(p []byte) (int, error) {
 		n = rest
 	}
 	if s.short {
-		m := vhInt("shortRead")
-		vhAssume(vhAnd(m >= 1, m <= n))
-		n = m
+		if s.shortCalls < vhParam("shortCalls", 3) {
+			// arbitrary short read (solver-chosen size)
+			var m int
+			if vhParam("shortEnum", 0) == 1 {
+				// sizes enumerated from a boundary-focused list (one vhCase per call)
+				m = vhShortSizes[vhCase(vhShortNames[s.shortCalls], 0, len(vhShortSizes)-1)]
+				if m > n {
+					m = n
+				}
+			} else {
+				m = vhInt("shortRead")
+				vhAssume(vhAnd(m >= 1, vhAnd(m <= n, m <= vhParam("shortMax", 1<<30))))
+			}
+			s.shortCalls++
+			n = m
+		} else {
+			// afterwards: still short, but completing the current 8-byte group (bounds the exploration)
+			m := 8 - s.c&7
+			if m < n {
+				n = m
+			}
+		}
 	}
 	copy(p[:n], s.data[s.c:s.c+n])
 	s.c += n
@@ -304,4 +327,92 @@ func H14_in_HasMore() {
 	}
 	_ = c2
 	vhAssert(panicked, "closed-stream-refuses")
+}
+
+// ---------------------------------------------------------------------------
+// C06 (source side): short reads. Focused states: the buffer is exhausted, the source still holds data but
+// delivers it in short pieces (1..shortMax bytes per call, solver-chosen per call).
+
+func vhShortState(L int) (*DefaultInputBitStream, *vhSource) {
+	bs, src := vhInState(L, 1)
+	vhAssume(bs.position == bs.maxPosition+1)
+	vhAssume(len(src.data)-src.c >= 24)
+	vhAssume(bs.pendingErr == nil)
+	return bs, src
+}
+
+// H06_short_ReadBits: ReadBits(count) when the refill is short.
+func H06_short_ReadBits() {
+	L := vhParam("L", 1024)
+	bs, src := vhShortState(L)
+	cnt := vhUint("count")
+	vhAssume(vhAnd(cnt >= 1, cnt <= 64))
+	p := vhU64("probe")
+	r0 := vhRhoLen(bs, src)
+	d0 := bs.Read()
+	vhAssume(p < uint64(cnt))
+	pre := vhRhoBit(bs, src, p)
+	var ret uint64
+	panicked := vhCatch(func() { ret = bs.ReadBits(cnt) })
+	vhAssert(!panicked, "short-read-no-panic")
+	vhAssert(bs.Read() == d0+uint64(cnt), "read-counter-advances-by-count")
+	vhAssert(vhRhoLen(bs, src) == r0-uint64(cnt), "rho-len")
+	vhAssert((ret>>(uint64(cnt)-1-p))&1 == pre, "returned-bits-are-next-bits")
+	vhReach("checked")
+}
+
+// H06_short_ReadArray: ReadArray of 64..K bits when the refill is short (the unaligned word loop is the
+// delicate path: it keeps alignment constants across pull()).
+func H06_short_ReadArray() {
+	L := vhParam("L", 1024)
+	K := vhParam("K", 72)
+	bs, src := vhShortState(L)
+	cnt := vhUint("count")
+	vhAssume(vhAnd(cnt >= 64, cnt <= uint(K)))
+	bits := make([]byte, (K+7)/8)
+	p := vhU64("probe")
+	r0 := vhRhoLen(bs, src)
+	d0 := bs.Read()
+	vhAssume(p < uint64(cnt))
+	pre := vhRhoBit(bs, src, p)
+	panicked := vhCatch(func() { bs.ReadArray(bits, cnt) })
+	vhAssert(!panicked, "short-read-no-panic")
+	vhAssert(bs.Read() == d0+uint64(cnt), "read-counter-advances-by-count")
+	vhAssert(vhRhoLen(bs, src) == r0-uint64(cnt), "rho-len")
+	got := uint64(bits[p>>3]>>(7-(p&7))) & 1
+	vhAssert(got == pre, "delivered-bits-are-next-bits")
+	vhReach("checked")
+}
+
+// H06_fresh: a fresh DefaultInputBitStream (real constructor) over a source that delivers short reads of
+// enumerated sizes; ReadBits(prefix) to misalign, then ReadArray(count). Control flow is concrete, the stream
+// content is symbolic: the delivered bits must be exactly the source bits [prefix, prefix+count).
+func H06_fresh() {
+	total := 48
+	src := &vhSource{data: vhArb("S", total), short: true, failAt: -1}
+	bs, err := NewDefaultInputBitStream(src, 1024)
+	vhAssert(err == nil, "constructed")
+	a := uint(vhCase("prefixBits", 0, 9))
+	cnt := uint(64 + 8*vhCase("extraBytes", 0, 8) + vhCase("extraBits", 0, 7))
+	p := vhU64("probe")
+	vhAssume(p < uint64(cnt))
+	var first uint64
+	bits := make([]byte, 32)
+	panicked := vhCatch(func() {
+		if a > 0 {
+			first = bs.ReadBits(a)
+		}
+		bs.ReadArray(bits, cnt)
+	})
+	vhAssert(!panicked, "short-reads-no-panic")
+	vhAssert(bs.Read() == uint64(a+cnt), "read-counter-exact")
+	if a > 0 {
+		want := (uint64(src.data[0])<<8 | uint64(src.data[1])) >> (16 - a)
+		vhAssert(first == want, "prefix-bits-correct")
+	}
+	q := uint64(a) + p
+	want := uint64(src.data[q>>3]>>(7-(q&7))) & 1
+	got := uint64(bits[p>>3]>>(7-(p&7))) & 1
+	vhAssert(got == want, "delivered-bits-are-stream-bits")
+	vhReach("checked")
 }
